@@ -1,4 +1,4 @@
 ---- MODULE MCGenGraph ----
 EXTENDS GenGraph
-MCPos == {"stmt", "ifcond", "arg", "loopbody", "ret"}
+MCPos == {"whilecond", "ternary", "switchcase", "assign", "stmt"}
 ====
